@@ -240,6 +240,8 @@ def r16_4(ctx):
     for p in sel:
         em, _ = _strip_key([e for e in emissions(p) if e[0] != "return"])
         if em != want_one:
+            if any(e[0] == "loop" and e[2] in ("self.children", "children") for e in em):
+                raise AnalysisError("Node.iter_tokens: the one-element tuple is emitted by the general loop over the children (a per-child test inside the loop); this rule compares straight-line emissions and does not unroll the loop")
             ok, bad = False, p
     ctx.check(ok, it.fq, show(bad) if bad else "tuple of one", it.where, f"inline form of a 1-tuple is open, element, ',', close on all {len(sel)} paths",
               "Node.iter_tokens no longer adds the trailing comma for a one-element tuple: (1,) prints as (1), which evaluates to an int" + (f" [path: {show(bad)}]" if bad else ""))
@@ -289,9 +291,18 @@ def r16_4(ctx):
     n_child = 0
     okx = bool(PX)
     badx = None
+    from ..yieldpaths import consistent as _cons164
+    T1 = {"self.node.is_tuple": True, "len(self.node.children) == 1": True, "node.is_tuple": True, "len(node.children) == 1": True}
     for p in PX:
         loops = [e for e in p if e[0] == "loop" and e[2] in ("self.node.children", "node.children")]
         if len(loops) != 1:
+            # the one-tuple case written out before the loop: exactly one child line, for children[0], with the comma
+            ys = [e for e in p if e[0] == "yield" and "node=" in e[1]]
+            if not loops and _cons164(p, T1) and any(e[0] == "cond" and "is_tuple" in e[1] and e[2] for e in p) and len(ys) == 1:
+                nd_, sx_ = suffix_of(ys[0])
+                if nd_ in ("self.node.children[0]", "node.children[0]") and sx_ == "','":
+                    n_child += 1
+                    continue
             okx, badx = False, p
             continue
         var = loops[0][1]
